@@ -368,7 +368,33 @@ static std::string handle(const std::vector<std::string> &toks)
     o.kind              = static_cast<trace_api::SpanKind>(static_cast<int>(kind));
     o.start_system_time = common::SystemTimestamp(std::chrono::nanoseconds(sys));
     o.start_steady_time = common::SteadyTimestamp(std::chrono::nanoseconds(steady));
-    span                = tracer->StartSpan(nostd::string_view(nm->data(), nm->size()), *start_attrs, *links, o);
+    // Tracer::StartSpan has one virtual entry point and a family of template overloads in the API header that wrap
+    // containers into the iterable views; which one is used depends on the case (deterministically): they must all start
+    // the same span
+    using PairVec = std::vector<std::pair<nostd::string_view, common::AttributeValue>>;
+    auto to_pairs = [](const vh::Attrs &a) {
+      PairVec v;
+      for (auto &kv : a.kvs) v.emplace_back(nostd::string_view(kv.key->data(), kv.key->size()), kv.val->get());
+      return v;
+    };
+    nostd::string_view nsv(nm->data(), nm->size());
+    const size_t ov = (name.size() + start_attrs->kvs.size() + links->links.size()) % 3;
+    if (ov == 0)
+      span = tracer->StartSpan(nsv, *start_attrs, *links, o);
+    else if (links->links.empty() && start_attrs->kvs.empty() && ov == 1)
+      span = tracer->StartSpan(nsv, o);
+    else if (links->links.empty())
+    {
+      PairVec av = to_pairs(*start_attrs);
+      span       = tracer->StartSpan(nsv, av, o);
+    }
+    else
+    {
+      PairVec av = to_pairs(*start_attrs);
+      std::vector<std::pair<trace_api::SpanContext, PairVec>> lv;
+      for (auto &l : links->links) lv.emplace_back(l.ctx, to_pairs(*l.attrs));
+      span = tracer->StartSpan(nsv, av, lv, o);
+    }
     nm.reset();
     start_attrs.reset();  // frees every key / value / array block of the start attributes
     links.reset();
@@ -395,9 +421,20 @@ static std::string handle(const std::vector<std::string> &toks)
     {
       std::unique_ptr<vh::Attrs> a(new vh::Attrs);
       a->parse(op.attrtok);
-      if (op.kind == "eva") span->AddEvent(sv, static_cast<const common::KeyValueIterable &>(*a));
-      else span->AddEvent(sv, common::SystemTimestamp(std::chrono::nanoseconds(op.n)),
-                          static_cast<const common::KeyValueIterable &>(*a));
+      // the virtual entry points and the container templates of the API header alternate with the attribute count
+      if (a->kvs.size() % 2 == 0)
+      {
+        if (op.kind == "eva") span->AddEvent(sv, static_cast<const common::KeyValueIterable &>(*a));
+        else span->AddEvent(sv, common::SystemTimestamp(std::chrono::nanoseconds(op.n)),
+                            static_cast<const common::KeyValueIterable &>(*a));
+      }
+      else
+      {
+        std::vector<std::pair<nostd::string_view, common::AttributeValue>> av;
+        for (auto &kv : a->kvs) av.emplace_back(nostd::string_view(kv.key->data(), kv.key->size()), kv.val->get());
+        if (op.kind == "eva") span->AddEvent(sv, av);
+        else span->AddEvent(sv, common::SystemTimestamp(std::chrono::nanoseconds(op.n)), av);
+      }
     }
     else if (op.kind == "status") span->SetStatus(static_cast<trace_api::StatusCode>(op.n), sv);
     else if (op.kind == "name") span->UpdateName(sv);
